@@ -278,6 +278,10 @@ def check(run, views, tier):
         # "the codes the library ... recognises": the parser's tag dispatch is the registry's partition, unknown delimiters are rejected
         from .. import readerrules as rr
         rr.r_dispatch(run, crates["ipp"])
+        # "the numeric codes the library emits": each operation type sends its own operation id (C10's op-id clause)
+        from ..engine import include
+        from . import c10
+        include(run, c10, {cfg: crates}, tier, "|op-id")
     run.meta.setdefault("coverage_extra", {})["exhaustive"] = True
     run.meta["coverage_extra"]["inputs_enumerated"] = exhaustive_inputs
 
